@@ -1,7 +1,9 @@
 // Harness for C19: interprets simplex scripts against Bpp/Numeric/Prob/Simplex.{h,cpp}.
-// Registers s0..s3 (Simplex) and o0..o3 (OrderedSimplex).  Answers:
-//   Simplex        : <probs> ; <theta1 .. theta(n-1)>
-//   OrderedSimplex : <values> ; <probs> ; <thetas>
+// Registers s0..s3 (Simplex) and o0..o3 (OrderedSimplex).  Answers (every data member):
+//   Simplex        : <probs> ; <theta1 .. theta(n-1)> ; m<method_> d<dim_> c<constraint of each theta> ; <valpha_>
+//   OrderedSimplex : <values> ; <probs> ; <thetas> ; m.. d.. c.. ; <valpha_>
+// constraint of a parameter: 1 = [0,1] (accepts 0), 0 = ]0,1[, - = none.  valpha_ is read through the
+// guarded hook Simplex::verifRatioCache().
 // doubles as 16 hex digits (NaN printed as `nan`), exceptions as exc:<kind>.
 #include "common.h"
 #include <Bpp/Numeric/Prob/Simplex.h>
@@ -35,10 +37,27 @@ static std::string accessors(const Simplex& s) {
   //  AbstractParameterAliasable still refers to the old parameters — property C03's subject)
   return "";
 }
-static std::string showS(const Simplex& s) { return accessors(s) + showV(s.getFrequencies()) + "; " + showParams(s); }
+static std::string showMeta(const Simplex& s) {
+  std::string r = "m" + TextTools::toString(s.getMethod()) + " d" + TextTools::toString(s.dimension()) + " c";
+  size_t n = s.getNumberOfParameters();
+  for (size_t i = 1; i <= n; ++i) {
+    const Parameter& p = s.parameter("theta" + TextTools::toString(i));
+    r += !p.hasConstraint() ? "-" : (p.getConstraint()->isCorrect(0.) ? "1" : "0");
+  }
+  return r + " ";
+}
+static std::string showTail(const Simplex& s) { return "; " + showParams(s) + "; " + showMeta(s) + "; " + showV(s.verifRatioCache()); }
+static std::string showS(const Simplex& s) { return accessors(s) + showV(s.getFrequencies()) + showTail(s); }
 static std::string showO(const OrderedSimplex& o) {
   const Simplex& b = o;
-  return accessors(b) + showV(o.getFrequencies()) + "; " + showV(b.getFrequencies()) + "; " + showParams(o);
+  return accessors(b) + showV(o.getFrequencies()) + "; " + showV(b.getFrequencies()) + showTail(b);
+}
+// (index, value) pairs -> list of parameters named theta<index>
+template<class S> static ParameterList someParams(const S& s, const Toks& t, size_t from) {
+  ParameterList pl;
+  for (size_t i = from; i + 1 < t.size(); i += 2)
+    pl.addParameter(Parameter(s.getNamespace() + "theta" + t[i], hexToDouble(t[i + 1])));
+  return pl;
 }
 static std::vector<double> vec(const Toks& t, size_t from) {
   std::vector<double> v; for (size_t i = from; i < t.size(); ++i) v.push_back(hexToDouble(t[i])); return v;
@@ -72,12 +91,30 @@ struct M {
       std::unique_ptr<OrderedSimplex> n(new OrderedSimplex(toU(t[2]), (unsigned short)toU(t[3]), t[4] == "1"));
       o[k] = std::move(n); return showO(*o[k]);
     }
+    if (op == "slicecopy" || op == "sliceassign") {
+      if (!o[k]) return "none";
+      size_t j = toU(t[2]);
+      const Simplex& src = *o[k];
+      if (op == "slicecopy") { std::unique_ptr<Simplex> c(new Simplex(src)); s[j] = std::move(c); return showS(*s[j]); }
+      // Simplex::operator= applied to an OrderedSimplex source
+      if (!s[j]) s[j].reset(new Simplex(1, 1));
+      *s[j] = *o[k]; return showS(*s[j]);
+    }
     if (op[0] == 'o') {
       if (!o[k]) return "none";
       if (op == "osetfreq") { o[k]->setFrequencies(vec(t, 2)); return showO(*o[k]); }
       if (op == "osetpar") { o[k]->matchParametersValues(allParams(*o[k], vec(t, 2))); return showO(*o[k]); }
       if (op == "osetone") { o[k]->setParameterValue("theta" + t[2], hexToDouble(t[3])); return showO(*o[k]); }
+      if (op == "osetsome") { o[k]->setParametersValues(someParams(*o[k], t, 2)); return showO(*o[k]); }
+      if (op == "omatchsome") { o[k]->matchParametersValues(someParams(*o[k], t, 2)); return showO(*o[k]); }
+      if (op == "ofire") { o[k]->fireParameterChanged(ParameterList()); return showO(*o[k]); }
       if (op == "oget") return showO(*o[k]);
+      if (op == "oassign") {
+        // implicit OrderedSimplex::operator=
+        size_t j = toU(t[2]); if (!o[j]) o[j].reset(new OrderedSimplex(1, 1));
+        OrderedSimplex& tgt = *o[j]; const OrderedSimplex& src = *o[k];
+        tgt = src; return showO(*o[j]);
+      }
       if (op == "oclone") {
         // copy through the Clonable interface, as containers of Parametrizable objects do
         size_t j = toU(t[2]);
@@ -93,9 +130,24 @@ struct M {
     if (op == "setfreq") { s[k]->setFrequencies(vec(t, 2)); return showS(*s[k]); }
     if (op == "setpar") { s[k]->matchParametersValues(allParams(*s[k], vec(t, 2))); return showS(*s[k]); }
     if (op == "setone") { s[k]->setParameterValue("theta" + t[2], hexToDouble(t[3])); return showS(*s[k]); }
+    if (op == "setsome") { s[k]->setParametersValues(someParams(*s[k], t, 2)); return showS(*s[k]); }
+    if (op == "matchsome") { s[k]->matchParametersValues(someParams(*s[k], t, 2)); return showS(*s[k]); }
+    if (op == "fire") { s[k]->fireParameterChanged(ParameterList()); return showS(*s[k]); }
     if (op == "get") return showS(*s[k]);
     if (op == "copy") { size_t j = toU(t[2]); std::unique_ptr<Simplex> c(s[k]->clone()); s[j] = std::move(c); return showS(*s[j]); }
-    if (op == "assign") { size_t j = toU(t[2]); if (!s[j]) s[j].reset(new Simplex(1, 1)); if (j != k) *s[j] = *s[k]; return showS(*s[j]); }
+    if (op == "copyctor") { size_t j = toU(t[2]); std::unique_ptr<Simplex> c(new Simplex(*s[k])); s[j] = std::move(c); return showS(*s[j]); }
+    if (op == "assign") {
+      // implicit Simplex::operator= (also onto itself)
+      size_t j = toU(t[2]); if (!s[j]) s[j].reset(new Simplex(1, 1));
+      Simplex& tgt = *s[j]; const Simplex& src = *s[k];
+      tgt = src; return showS(*s[j]);
+    }
+    if (op == "baseassign") {
+      // assignment through a base-class reference: only the Simplex part of the ordered object is assigned
+      size_t j = toU(t[2]); if (!o[j]) return "none";
+      Simplex& base = *o[j];
+      base = *s[k]; return showO(*o[j]);
+    }
     return "bad-op";
   }
 };
